@@ -2,6 +2,7 @@ package main
 
 import (
 	"fmt"
+	"go/types"
 	"os"
 	"strings"
 
@@ -33,6 +34,112 @@ func propC02(a *Analysis, r *Registry) {
 	}
 	A := func(j string) string {
 		return "makeUmemo(" + j + ", d.N1, d.T)[len(d.T)][ukey(d.N1, " + j + ")]"
+	}
+	// the tied branches panic only when the memo table lacks the entry asked for (an internal
+	// assertion): with every lookup succeeding no panic is reachable
+	for _, mn := range []string{"PMF", "CDF"} {
+		mn := mn
+		if fn := b.Fn(rC, "stats.(UDist)."+mn); fn != nil {
+			b.guard(rC, "stats.(UDist)."+mn+"/panics-only-on-missing-entry", func() {
+				fc := X.FCFor(fn)
+				n := 0
+				fc.Ctx.Instrs(func(in ssa.Instruction) {
+					pn, ok := in.(*ssa.Panic)
+					if !ok {
+						return
+					}
+					n++
+					c := fc.ReachCond(pn.Block())
+					var as []Assumption
+					for _, at := range FindFn(c, "lookupok") {
+						as = append(as, X.AssumeEq(S.atomRF(at.ID), S.True()))
+					}
+					if len(as) > 0 && X.SimplifyUnder(c, as).Equal(S.False()) {
+						r.OK(rC, "stats.(UDist)."+mn+"/panics-only-on-missing-entry", a.W.InstrPos(pn), "unreachable when the table has the entries looked up")
+					} else {
+						r.Fail(rC, "stats.(UDist)."+mn+"/panics-only-on-missing-entry", a.W.InstrPos(pn), "a panic is reachable although every table lookup succeeds: "+clip(c.String(), 200))
+					}
+				})
+			})
+		}
+	}
+	// hasTies selects between the two algorithms: true exactly when some rank holds more than one
+	// sample (treating tied data as untied gives the wrong distribution)
+	if fn := b.Fn(rB, "stats.(UDist).hasTies"); fn != nil {
+		b.guard(rB, "stats.(UDist).hasTies", func() {
+			fc := X.FCFor(fn)
+			env := X.EnvFor(fn, "d")
+			T := env.MustParse("d.T")
+			loops := fc.Ctx.Loops()
+			cn := "stats.(UDist).hasTies"
+			if len(loops) == 0 {
+				// delegated to package slices: ContainsFunc(d.T, func(t) bool { return t > 1 })
+				rv := fc.RetVal(0).SingleAtom()
+				if rv != nil && strings.HasPrefix(rv.Name, "slices.ContainsFunc[") && len(rv.Args) == 2 && rv.Args[0].Equal(T) {
+					if cl := rv.Args[1].SingleAtom(); cl != nil {
+						var cf *ssa.Function
+						if X.cloFn[cl.ID] != nil {
+							cf = X.cloFn[cl.ID].Fn.(*ssa.Function)
+						} else if strings.HasPrefix(cl.Name, "func:") {
+							cf = a.W.Fn(strings.TrimPrefix(cl.Name, "func:"))
+						}
+						if cf != nil && len(cf.Params) == 1 {
+							b.EqRF(rB, cn, b.pos(fn), X.FCFor(cf).RetVal(0), S.Cmp("<", S.Int(1), X.ParamRF(cf, 0)), "slices.ContainsFunc(d.T, t > 1)")
+							return
+						}
+					}
+				}
+				anchorFail("hasTies: no scan loop and not slices.ContainsFunc over d.T: %s", clip(fc.RetVal(0).String(), 200))
+			}
+			if len(loops) != 1 {
+				anchorFail("hasTies: expected one scan loop, found %d", len(loops))
+			}
+			b.AnyOf(func() {
+				b.FirstHitScan(rB, cn, b.pos(fn), fc, loops[0].Header, FirstHit{
+					Base:  T,
+					First: S.Int(0),
+					N:     S.MakeFn("len", T),
+					Hit:   func(e *RF) *RF { return S.Cmp("<", S.Int(1), S.MakeFn("idx", T, e)) },
+					Val:   func(e *RF) *RF { return S.True() },
+					Miss:  S.False(),
+				})
+			}, func() {
+				// the answer carried in a flag that also stops the scan:
+				// for i := 0; i < len(T) && !tied; i++ { tied = T[i] > 1 }
+				_, guard, _, msg := b.loopGuard(fc, loops[0].Header)
+				if msg != "" {
+					anchorFail("hasTies: %s", msg)
+				}
+				var flag, idx *RF
+				for _, in := range loops[0].Header.Instrs {
+					ph, ok := in.(*ssa.Phi)
+					if !ok {
+						break
+					}
+					if bt, ok := ph.Type().Underlying().(*types.Basic); ok && bt.Kind() == types.Bool {
+						flag = fc.Val(ph)
+					} else if isIntType(ph.Type()) {
+						idx = fc.Val(ph)
+					}
+				}
+				if flag == nil || idx == nil {
+					anchorFail("hasTies: no flag/counter pair")
+				}
+				fi, fnx := fc.Recurrence(flag)
+				ii, inx := fc.Recurrence(idx)
+				b.EqRF(rB, cn+"/flag-init", b.pos(fn), fi, S.False(), "no tie seen at the start")
+				b.EqRF(rB, cn+"/flag-step", b.pos(fn), fnx, S.Cmp("<", S.Int(1), S.MakeFn("idx", T, idx)), "the flag is whether the rank just examined holds more than one sample")
+				b.EqRF(rB, cn+"/index-init", b.pos(fn), ii, S.Int(0), "from the first rank")
+				b.EqRF(rB, cn+"/index-step", b.pos(fn), inx, idx.Add(S.Int(1)), "one rank at a time")
+				// (loopGuard reads a flag that ends the loop once set at its unset value)
+				if !guard.Equal(S.Cmp("<", idx, S.MakeFn("len", T))) {
+					b.EqRF(rB, cn+"/while", b.pos(fn), guard, S.And(S.Cmp("<", idx, S.MakeFn("len", T)), S.Not(flag)), "goes on while ranks are left and no tie has been seen")
+				} else {
+					r.OK(rB, cn+"/while", b.pos(fn), "goes on while ranks are left (and the flag is unset)")
+				}
+				b.EqRF(rB, cn+"/result", b.pos(fn), fc.RetVal(0), flag, "returns the flag")
+			})
+		})
 	}
 	if fn := b.Fn(rB, "stats.(UDist).PMF"); fn != nil {
 		name := "stats.(UDist).PMF"
@@ -202,6 +309,31 @@ func propC02(a *Analysis, r *Registry) {
 			env.Let("N", "ite(d.N2<d.N1, d.N2, d.N1)")
 			env.Let("M", "ite(d.N2<d.N1, d.N1, d.N2)")
 			b.Eq(rB, name+"/returns", a.W.InstrPos(rets[0]), fc.Val(rets[0].Results[0]), env, "memo[N]")
+			// the table has a row for every n = 0..N and every row a slot for every U' = 0..U
+			if ma := memo.SingleAtom(); ma != nil && strings.HasPrefix(ma.Name, "makeslice:") {
+				b.Eq(rB, name+"/table/rows", b.pos(fn), ma.Args[0], env, "N+1")
+				nRows := 0
+				fc.Ctx.Instrs(func(in ssa.Instruction) {
+					st, ok := in.(*ssa.Store)
+					if !ok {
+						return
+					}
+					ia, ok := st.Addr.(*ssa.IndexAddr)
+					if !ok || !fc.Val(ia.X).Equal(memo) {
+						return
+					}
+					nRows++
+					if ra := fc.Val(st.Val).SingleAtom(); ra != nil && strings.HasPrefix(ra.Name, "makeslice:") {
+						b.Eq(rB, name+"/table/row-length", a.W.InstrPos(st), ra.Args[0], env, "U+1")
+						b.FullScan("C-scan coverage", name+"/table/every-row", a.W.InstrPos(st), fc, fc.Val(ia.Index), S.MakeFn("len", memo))
+					} else {
+						r.Fail(rB, name+"/table/row-length", a.W.InstrPos(st), "a row of the table is not a fresh slice")
+					}
+				})
+				if nRows != 1 {
+					r.Fail(rB, name+"/table/rows", b.pos(fn), fmt.Sprintf("expected one store that makes the rows of the table, found %d", nRows))
+				}
+			}
 			nrec := 0
 			top := fc
 			// (the cell update may be made by a helper handed the rows; it may also be split over
